@@ -355,7 +355,7 @@ func runC19_3on(c *core.Ctx, name string) {
 			if x, y, op, ok := flow.Cmp(e.Cond); ok && flow.IsNil(f.Info, y) && (op == token.NEQ) == e.Sense {
 				if v, ok := flow.ObjOf(f.Info, x).(*types.Var); ok {
 					if def, ok := singleDef(f, v).(*ast.CallExpr); ok {
-						if cf := flow.CalleeFunc(f.Info, def); cf != nil && cf.Name() == "Validate" && c.P.InModule(cf) {
+						if cf := flow.CalleeFunc(f.Info, def); cf != nil && nameOf(cf) == "Validate" && c.P.InModule(cf) {
 							in |= fAbsent
 						}
 					}
@@ -379,7 +379,7 @@ func runC19_3on(c *core.Ctx, name string) {
 			// a refusal (not the context's error): only for an engine that is down already or does not exist
 			isCtxErr := false
 			if call, ok := ast.Unparen(r.Results[0]).(*ast.CallExpr); ok {
-				if cf := flow.CalleeFunc(f.Info, call); cf != nil && cf.Name() == "Err" {
+				if cf := flow.CalleeFunc(f.Info, call); cf != nil && nameOf(cf) == "Err" {
 					isCtxErr = true
 				}
 			}
@@ -407,7 +407,7 @@ func runC19_3on(c *core.Ctx, name string) {
 		isDone := false
 		ast.Inspect(cc.Comm, func(x ast.Node) bool {
 			if call, ok := x.(*ast.CallExpr); ok {
-				if cf := flow.CalleeFunc(f.Info, call); cf != nil && cf.Name() == "Done" && cf.Pkg() != nil && cf.Pkg().Path() == "context" {
+				if cf := flow.CalleeFunc(f.Info, call); cf != nil && nameOf(cf) == "Done" && cf.Pkg() != nil && cf.Pkg().Path() == "context" {
 					isDone = true
 				}
 			}
@@ -416,7 +416,7 @@ func runC19_3on(c *core.Ctx, name string) {
 		if isDone && len(cc.Body) == 1 {
 			if r, ok := cc.Body[0].(*ast.ReturnStmt); ok && len(r.Results) == 1 {
 				if call, ok := ast.Unparen(r.Results[0]).(*ast.CallExpr); ok {
-					if cf := flow.CalleeFunc(f.Info, call); cf != nil && cf.Name() == "Err" && cf.Pkg() != nil && cf.Pkg().Path() == "context" {
+					if cf := flow.CalleeFunc(f.Info, call); cf != nil && nameOf(cf) == "Err" && cf.Pkg() != nil && cf.Pkg().Path() == "context" {
 						okk = true
 					}
 				}
@@ -468,7 +468,7 @@ func runC19_4(c *core.Ctx) {
 				if id, ok := call.Fun.(*ast.Ident); ok && id.Name == "make" && len(call.Args) >= 1 {
 					if _, isChan := f.Info.TypeOf(call.Args[0]).Underlying().(*types.Chan); isChan {
 						if t, ok := f.Info.TypeOf(call.Args[0]).Underlying().(*types.Chan); ok {
-							if nm, ok := t.Elem().(*types.Named); ok && nm.Obj().Name() == "RegisteredResult" {
+							if nm, ok := t.Elem().(*types.Named); ok && nameOf(nm.Obj()) == "RegisteredResult" {
 								resCh = flow.ObjOf(f.Info, as.Lhs[0])
 								if len(call.Args) == 2 {
 									if cv := flow.ConstOf(f.Info, call.Args[1]); cv != nil {
@@ -493,7 +493,7 @@ func runC19_4(c *core.Ctx) {
 	// the worker literal: the one passed to Submit
 	var lit *ast.FuncLit
 	for _, call := range callsIn(f.Decl.Body, false) {
-		if cf := flow.CalleeFunc(f.Info, call); cf != nil && cf.Name() == "Submit" && len(call.Args) == 1 {
+		if cf := flow.CalleeFunc(f.Info, call); cf != nil && nameOf(cf) == "Submit" && len(call.Args) == 1 {
 			lit, _ = ast.Unparen(call.Args[0]).(*ast.FuncLit)
 		}
 	}
